@@ -378,7 +378,7 @@ func symBinop(op token.Token, t types.Type, x, y value) value {
 	}
 	_, _, signed, _ := symSortOf(t)
 	if a.k == sInt || b.k == sInt {
-		return intBinop(op, toInt(a, signed), toInt(b, signed))
+		return intBinop(op, toInt(a, signed), toInt(b, signed), signed)
 	}
 	switch a.k {
 	case sBool:
